@@ -480,7 +480,12 @@ def gen_spec(rng, cfg: dict | None = None) -> dict:
         else:
             rt = rng.choice(tnames)
         name = rng.choice(ASSOC_NAMES)
-        if (name, lt, rt) in used_assoc_keys or (name, rt, lt) in used_assoc_keys:
+        if g.assocs and rng.random() < 0.15:
+            # same name, same two types, declared the other way round
+            prev = rng.choice(g.assocs)
+            if prev['leftAsset'] != prev['rightAsset']:
+                name, lt, rt = prev['name'], prev['rightAsset'], prev['leftAsset']
+        if (name, lt, rt) in used_assoc_keys or (lt == rt and (name, rt, lt) in used_assoc_keys):
             continue
         # field rf is a field *of lt's family*, lf a field of rt's family
         taken_l = g.field_names_in_family(lt) | g.step_names_in_family(lt)
